@@ -98,7 +98,7 @@ Lemma dec_loop_ok s : forall ds l,
     le_val B32 l' = le_val B32 l * 58 ^ Z.of_nat (length s) + be_value 58 ds /\
     Forall (digit B32) l' /\ length l' = length l.
 Proof.
-  induction s as [|ch s IH]; intros ds l Hs Hv Hl Hlt; inversion Hv as [|? d ? ds' Hc Hv']; subst; cbn [b58_dec_loop].
+  induction s as [|ch s IH]; intros ds l Hs Hv Hl Hlt; inversion Hv as [|? d ? ds' Hc Hv']; subst; cbn [b58_dec_loop]; rewrite ?highbit_eq.
   - exists l. cbn [length]. change (58 ^ Z.of_nat 0) with 1. change (be_value 58 []) with 0.
     splits; try reflexivity; try assumption. lia.
   - inversion Hs as [|? ? Hb Hs']; subst.
@@ -130,7 +130,7 @@ Lemma dec_loop_invalid s : forall l, Forall is_byte s ->
   (exists c, In c s /\ index_of c BITCOIN_ALPHABET 0 = None) -> b58_dec_loop s l = None.
 Proof.
   induction s as [|ch s IH]; intros l Hs (c & Hin & Hc); [destruct Hin|].
-  inversion Hs as [|? ? Hb Hs']; subst. cbn [b58_dec_loop].
+  inversion Hs as [|? ? Hb Hs']; subst. cbn [b58_dec_loop]. rewrite highbit_eq.
   destruct (map_table ch Hb) as [[Hhi Hn]|[Hhi Hm]]; rewrite Hhi; cbn [negb]; [reflexivity|].
   rewrite Hm.
   destruct (index_of ch BITCOIN_ALPHABET 0) as [d|] eqn:E; [|reflexivity].
@@ -219,7 +219,7 @@ Proof.
   destruct (Z.eqb_spec (Z.of_nat (length s)) 0) as [He|Hne].
   { destruct s; [reflexivity|cbn [length] in He; lia]. }
   destruct (Z.ltb_spec B58_DECODE_MAXLEN (Z.of_nat (length s))); [lia|].
-  unfold base58_decode. rewrite lead_char_eq.
+  unfold base58_decode. rewrite pad_dec_eq, lead_char_eq.
   set (zc := lead_count 49 s). set (rest := skipn zc s).
   set (outisz := Z.to_nat (B58_DECODE_MAXLEN / 4)).
   assert (Hrest : Forall is_byte rest) by (subst rest; apply Forall_skipn; exact Hs).
